@@ -437,6 +437,62 @@ def path_values(g, func, target_nodes, exprs, labels=None):
     return out
 
 
+def straightline(func):
+    """Symbolic effect of a function whose body is a straight line of assignments / expression statements / one
+    final return: {target text: expression in terms of the values at entry}.  Targets are locals, `self.attr`
+    and subscripted stores (`self.d[k]`); '<return>' is the returned expression.  None if the body branches."""
+    import copy
+    body = list(func.node.body)
+    if body and isinstance(body[0], ast.Expr) and isinstance(body[0].value, ast.Constant) and isinstance(body[0].value.value, str):
+        body = body[1:]
+    env = {}
+
+    class S(ast.NodeTransformer):
+        def visit_Name(self, node):
+            if isinstance(node.ctx, ast.Load) and node.id in env:
+                return copy.deepcopy(env[node.id])
+            return node
+
+        def visit_Attribute(self, node):
+            t = dotted(node)
+            if isinstance(node.ctx, ast.Load) and t in env:
+                return copy.deepcopy(env[t])
+            self.generic_visit(node)
+            return node
+
+    def ev(e):
+        return S().visit(copy.deepcopy(e))
+    for st in body:
+        if isinstance(st, ast.Assign) and len(st.targets) == 1:
+            v = ev(st.value)
+            t = st.targets[0]
+            if isinstance(t, ast.Name):
+                env[t.id] = v
+            elif isinstance(t, ast.Attribute) and dotted(t):
+                env[dotted(t)] = v
+            elif isinstance(t, ast.Subscript):
+                env[norm(ev(t.value)) + '[' + norm(ev(t.slice)) + ']'] = v
+            else:
+                return None
+        elif isinstance(st, ast.AugAssign) and isinstance(st.target, (ast.Name, ast.Attribute)):
+            key = st.target.id if isinstance(st.target, ast.Name) else dotted(st.target)
+            if key is None:
+                return None
+            cur = copy.deepcopy(st.target)
+            for n in ast.walk(cur):
+                if hasattr(n, 'ctx'):
+                    n.ctx = ast.Load()
+            env[key] = ast.BinOp(left=ev(cur), op=st.op, right=ev(st.value))
+        elif isinstance(st, ast.Expr):
+            continue
+        elif isinstance(st, ast.Return):
+            env['<return>'] = ev(st.value) if st.value is not None else ast.Constant(value=None)
+            break
+        else:
+            return None
+    return env
+
+
 def inline_locals(func, expr, depth=0):
     """A copy of expr with every single-definition local replaced by its definition (recursively)."""
     import copy
@@ -468,6 +524,23 @@ def bound(ctx, func, call):
         return {}
     b = bind_args(ctx, call, func, r.targets[0]) or {}
     return {k: v for k, v in b.items() if isinstance(v, ast.AST)}
+
+
+def list_elements(func, name):
+    """The elements, in order, of a local list built by one list display and any number of
+    unconditional `name.append(e)` statements outside loops and try blocks (positions decide
+    the order).  None when the list is built any other way."""
+    d = single_def(func, name)
+    if not isinstance(d, ast.List) or len(local_defs(func, name)) != 1:
+        return None
+    out = list(d.elts)
+    muts = [c for c in own_calls(func.node) if isinstance(c.func, ast.Attribute) and isinstance(c.func.value, ast.Name) and c.func.value.id == name
+            and c.func.attr in ('append', 'extend', 'insert', 'remove', 'pop', 'sort', 'reverse', 'clear')]
+    for c in sorted(muts, key=lambda c: c._pos):
+        if c.func.attr != 'append' or len(c.args) != 1 or guards(c) or in_loop(c) is not None or enclosing_trys(c):
+            return None
+        out.append(c.args[0])
+    return out
 
 
 def built_list(func, name):
